@@ -140,6 +140,9 @@ def rs_meta(rs: RecSort) -> dict:
 def call_builtin(m: Any, name: str, args: list[V], kwargs: dict[str, V], node: ast.Call | None, hint: str | None) -> V:
     from .symex import RaiseSig
 
+    if name == "id" and len(args) == 1 and isinstance(args[0], (VU, VOpt)):
+        # id(x) of an object: injective on live objects; modelled as the object itself (only ever used as a dictionary / set key or compared)
+        return args[0]
     if name == "set" and not args:
         if not (hint and hint.startswith("Set[")):
             raise EngineError(f"{m.contract.key}: set() needs a declared sort in contract.locals")
